@@ -18,7 +18,7 @@ const DICT: [&str; 96] = [
     "{", "}", "(", ")", "[", "]", "[[", "]]", ",", ";", ":", ".", "..", "...", "|", "^", "<", "@", "&", "!", "--", "/*", "*/", "\"", "'", "'0101'B",
 ];
 
-pub const EXOTIC: [&str; 83] = [
+pub const EXOTIC: [&str; 84] = [
     "MY-CLASS ::= CLASS { &id INTEGER UNIQUE, &Type, &val INTEGER OPTIONAL } WITH SYNTAX { ID &id TYPE &Type [VAL &val] }",
     "obj1 MY-CLASS ::= { ID 1 TYPE INTEGER }",
     "obj2 MY-CLASS ::= { ID 2 TYPE BOOLEAN VAL 7 }",
@@ -98,6 +98,8 @@ pub const EXOTIC: [&str; 83] = [
     "RealBig ::= SEQUENCE { r REAL DEFAULT 10000000000000000000000000000000000000000000000000000000000000000000000000000000000000000000000000000000000000000000000000000000000000000000000000000000000000000000000000000000000000000000000000000000000000000000000000000000000000000000000000000000000000000000000000000000000000000000000000000000000000000000000000000000000000000000000000000000000000000000000000000000000000000000000000000000000000000 }",
     "rbig REAL ::= 10000000000000000000000000000000000000000000000000000000000000000000000000000000000000000000000000000000000000000000000000000000000000000000000000000000000000000000000000000000000000000000000000000000000000000000000000000000000000000000000000000000000000000000000000000000000000000000000000000000000000000000000000000000000000000000000000000000000000000000000000000000000000000000000000000000000000000.5",
     "RealExp ::= SEQUENCE { r REAL DEFAULT 1.0E99999 }",
+    // a class whose type field has a hyphen in its name, with an object set and a table constraint
+    "HY-CLASS ::= CLASS { &id INTEGER UNIQUE, &My-Type } WITH SYNTAX { ID &id TYPE &My-Type }\nhyObj HY-CLASS ::= { ID 1 TYPE INTEGER }\nHy-Set HY-CLASS ::= { hyObj | { ID 2 TYPE BOOLEAN } }\nHy-Holder ::= SEQUENCE { id HY-CLASS.&id ({Hy-Set}), v HY-CLASS.&My-Type ({Hy-Set}{@id}) }",
     // cycles that are entered through a chain of acyclic references (two links), from a name
     // that sorts after and one that sorts before the cycle: a guard that only recognises a
     // walk returning to its *start* never ends on these
@@ -186,7 +188,20 @@ fn mismatch_module(src: &mut Src) -> String {
     let n = 1 + src.pick(8);
     for i in 0..n {
         let ty = M_TYPES[src.pick(M_TYPES.len())];
-        let con = if src.chance(50) { M_CONS[src.pick(M_CONS.len())] } else { "" };
+        // a constraint, now and then two of them joined by a set operator (`("" | "z".."a")`)
+        let con_owned: String = if src.chance(50) {
+            let a = M_CONS[src.pick(M_CONS.len())];
+            if src.chance(30) {
+                let b = M_CONS[src.pick(M_CONS.len())];
+                let inner = |c: &str| c.strip_prefix('(').and_then(|r| r.strip_suffix(')')).unwrap_or(c).to_string();
+                format!("({} {} {})", inner(a), ["|", "^", "EXCEPT"][src.pick(3)], inner(b))
+            } else {
+                a.to_string()
+            }
+        } else {
+            String::new()
+        };
+        let con = con_owned.as_str();
         let val = M_VALUES[src.pick(M_VALUES.len())];
         // the names take part too: hoisted inner types and value constructors are named after
         // the type, whose Rust name differs when it has a hyphen or is the one title-case keyword
@@ -487,12 +502,22 @@ fn panic_signature(msg: &str) -> String {
     format!("{file}|{head}")
 }
 
+/// F-named-bit-huge: a BIT STRING type names a bit with a very large number and a value of the
+/// type is written as a list of names: the linker builds one bool per bit position up to the
+/// highest named number (capacity overflow, allocation failure or minutes of work by size)
+fn huge_named_bit(text: &str) -> bool {
+    text.contains("BIT STRING") && text.split(|c: char| !c.is_ascii_digit()).any(|n| n.len() >= 9)
+}
+
 fn classify(v: &WV, text: &str) -> Option<&'static str> {
     match v {
         WV::Panic(m) => {
             let sig = panic_signature(m);
             if sig.starts_with("generator/rasn/builder.rs|not implemented: rasn does not support TIME") || sig.starts_with("generator/typescript/mod.rs|not implemented: rasn does not support TIME") {
                 return Some("F-time-unimplemented");
+            }
+            if sig.starts_with("vec/spec_from_iter_nested.rs|capacity overflow") && huge_named_bit(text) {
+                return Some("F-named-bit-huge");
             }
             None
         }
@@ -512,15 +537,14 @@ fn classify(v: &WV, text: &str) -> Option<&'static str> {
             }
             if max >= 20 {
                 Some("F-exp-backtrack")
+            } else if huge_named_bit(text) {
+                Some("F-named-bit-huge")
             } else {
                 None
             }
         }
-        WV::Died(_) => {
-            // stack exhaustion on a cyclic alias chain
-            let _ = text;
-            None
-        }
+        // the allocation of one bool per bit position fails under the worker's memory limit
+        WV::Died(_) if huge_named_bit(text) => Some("F-named-bit-huge"),
         _ => None,
     }
 }
